@@ -83,7 +83,8 @@ class FeatureIncorporate(Case):
         if n > 1:
             self.allow_uncovered = ("raise:EmptyLocationException", "raise:NullSequenceException")
         self.call = ("(lambda r: (r, r.chromosome_location, r.chunk_relative_location, r.strand, r.feature_id, r.feature_name, "
-                     "r.sequence_name, r.is_primary_feature))(f.incorporate_variants(v))")
+                     "r.sequence_name, r.is_primary_feature, (lambda s: (len(s), s))(r.get_spliced_sequence())))"
+                     "(f.incorporate_variants(v))")
         self.raises = {"EmptyLocationException": lambda i: And(_all_deleted(i), Not(_chunk_deleted(i))),
                        "NullSequenceException": _chunk_deleted}
         self.ensures = {
@@ -98,6 +99,12 @@ class FeatureIncorporate(Case):
             "identifiers-and-flags-carried-over": lambda i, r: And(
                 r[4] == "fid", r[5] == "fname", r[6] == "chr1", r[7] == True),  # noqa: E712
             "sits-on-the-alternative-sequence": lambda i, r: _alt_text_ok(i, r),
+            # statement: 'the spliced sequence of a feature ... after incorporating variants equals its reference
+            # spliced sequence with the edits applied' - character by character on symbolic text
+            "spliced-sequence-is-the-reference-with-the-edit-applied": lambda i, r: And(
+                r[8][0] == sum((Max(0, b - a) for a, b in _image(i)), 0),
+                Implies(And(0 <= i.k, i.k < r[8][0]),
+                        _charat(r[8][1], i.k) == _edited_base(i, _image_pos(i, i.k)))),
         }
 
     def inputs(self, S):
@@ -110,18 +117,51 @@ class FeatureIncorporate(Case):
                   is_primary_feature=True, parent_or_seq_chunk_parent=cp)
         l = slen(alt)
         i = NS(f=f, v=v, vs=vs, ve=ve, l=l, d=l - (ve - vs), starts=starts, ends=ends, strand=strand, q=S.int("q"),
-               cs=cs, ce=ce, alt=alt)
+               cs=cs, ce=ce, alt=alt, k=S.int("k"), ref=S.symstr("chunk_seq"), edits=[(vs - cs, ve - cs, alt)])
         S.assume(_placed_all(i))  # the statement's quantifier: variant wholly inside one block or outside all
         return i
 
     def samples(self, rng):
         d = sample_blocks(rng, "f", self.n, lo=2, gap=(1, 2, 3))
         d["strand"] = rng.choice(["PLUS", "MINUS"])
+        d["k"] = rng.randint(0, 10)
         return _sample_common(rng, d, d["f_starts"][0], d["f_ends"][-1])
 
     def observe(self, r):
         from .c02_single import obs_loc
-        return [obs_loc(r[1])[:3], obs_loc(r[2])[:3]]
+        text = r[8][1].sequence if hasattr(r[8][1], "attrs") else str(r[8][1])
+        return [obs_loc(r[1])[:3], obs_loc(r[2])[:3], text if isinstance(text, str) else None]
+
+
+def _image_pos(i, t):
+    """position on the ALTERNATIVE haplotype (chromosome coordinates) of relative position t of the lifted feature:
+    the point-wise map over the image blocks (empty images contribute nothing), 5'->3'."""
+    img = _image(i)
+    order = list(range(len(img))) if _plus(i) else list(range(len(img) - 1, -1, -1))
+    expr = -1
+    pre = 0
+    parts = []
+    for k in order:
+        a, b = img[k]
+        ln = Max(0, b - a)
+        parts.append((And(pre <= t, t < pre + ln), (a + (t - pre)) if _plus(i) else (b - 1 - (t - pre))))
+        pre = pre + ln
+    for cond, val in reversed(parts):
+        expr = If(cond, val, expr)
+    return expr
+
+
+def _edited_base(i, p):
+    """base (of the feature's strand) at alternative-haplotype position p: the literal substitution of the variant
+    into the chunk text (edit model of c13_variants), complemented for a minus-strand feature."""
+    from .c13_variants import _edit_model
+    c = _edit_model(i, p - i.cs)
+    if _plus(i):
+        return c
+    out = c  # IUPAC complement restricted to the letters in play (reference ACGT, alternative allele ACGTN: N -> N)
+    for a, b in (("A", "T"), ("T", "A"), ("C", "G"), ("G", "C")):
+        out = If(c == ord(a), ord(b), out)
+    return out
 
 
 def _alt_text_ok(i, r):
@@ -243,6 +283,73 @@ def _frames_continuous(i, r):
     return And(*parts)
 
 
+class CdsIncorporateCollection(Case):
+    """CDS of two exons, a haplotype of TWO variants, one inside each exon (so their length changes may cancel):
+    the new CDS covers the edited image of each exon and its frames are re-derived - one reading frame continuing the
+    start frame over the NEW exon lengths.  Parentless objects (coordinates only).  Inputs on which the known
+    finding F-C13-1 (variants applied left to right in reference coordinates) changes the outcome are excluded by
+    the precondition: the second variant also lies inside the already shifted second exon."""
+    props = ("C13",)
+    summaries = (HOS,)
+    func = CDS + ".incorporate_variants"
+    shard_depth = 5
+    name = "CDSInterval.incorporate_variants[2 blocks, haplotype of two variants, one inside each block]"
+    call = "(lambda r: (r, r.chromosome_location, None, r.frames, r.strand))(cds.incorporate_variants(col))"
+    ensures = {
+        "covers-exactly-the-edited-image": lambda i, r: Iff(
+            covers_pos(r[1], i.q), Or(And(i.starts[0] <= i.q, i.q < i.ends[0] + i.d1),
+                                      And(i.starts[1] + i.d1 <= i.q, i.q < i.ends[1] + i.d1 + i.d2))),
+        "frames-form-one-uninterrupted-reading-frame": lambda i, r: _frames_continuous(i, r),
+        "strand-kept": lambda i, r: _same_enum(r[4], i.strand),
+    }
+
+    def inputs(self, S):
+        starts, ends = block_lists(S, "cds", 2, allow_adjacent=False)
+        strand = strand_of(S, "strand")
+        f0 = S.enum(FRAME, "frame")
+        S.assume(Not(enum_name_is(f0, "NONE")))
+        if S.mode == "sym":
+            f0 = S.e.enum_concretize(f0)
+        vs1, ve1, vs2, ve2 = S.int("v1_start"), S.int("v1_end"), S.int("v2_start"), S.int("v2_end")
+        alt1, alt2 = S.symstr("v1_alt", "ACGTN"), S.symstr("v2_alt", "ACGTN")
+        d1, d2 = slen(alt1) - (ve1 - vs1), slen(alt2) - (ve2 - vs2)
+        S.assume(And(starts[0] <= vs1, vs1 < ve1, ve1 <= ends[0], starts[1] <= vs2, vs2 < ve2, ve2 <= ends[1]))
+        # something of each exon is left, and the exons stay apart (their images are neither empty nor merged)
+        S.assume(And(ends[0] + d1 > starts[0], ends[1] + d2 > starts[1], ends[0] + d1 < starts[1] + d1))
+        # domain of the known finding F-C13-1 excluded (see the class docstring)
+        S.assume(And(starts[1] + d1 <= vs2, ve2 <= ends[1] + d1))
+        v1 = S.new(VAR, vs1, ve1, alt1, "variant")
+        v2 = S.new(VAR, vs2, ve2, alt2, "variant")
+        col = S.new(VCOL, [v1, v2])
+        loc = S.new(COMPOUND, list(starts), list(ends), strand)
+        cls = S.cls(CDS)
+        if S.mode == "native":
+            frames = cls.construct_frames_from_location(loc, f0)
+        else:
+            frames = S.e.call(S.e.getattr(cls, "construct_frames_from_location"), [loc, f0], {})
+        cds = S.new(CDS, starts, ends, strand, frames)
+        return NS(cds=cds, col=col, starts=starts, ends=ends, strand=strand, f0=f0, d1=d1, d2=d2, q=S.int("q"))
+
+    def samples(self, rng):
+        a = rng.randint(0, 4)
+        b = a + rng.randint(3, 7)
+        c = b + rng.randint(3, 6)
+        d = c + rng.randint(3, 7)
+        v1s = rng.randint(a, b - 1)
+        v1e = min(b, v1s + rng.randint(1, 2))
+        v2s = rng.randint(c + 2, d - 1) if c + 2 <= d - 1 else c
+        v2e = min(d, v2s + rng.randint(1, 2))
+        return dict(cds_starts=[a, c], cds_ends=[b, d], strand=rng.choice(["PLUS", "MINUS"]),
+                    frame=rng.choice(["ZERO", "ONE", "TWO"]), v1_start=v1s, v1_end=v1e,
+                    v1_alt="".join(rng.choice("ACGT") for _ in range(rng.randint(0, 3))), v2_start=v2s, v2_end=v2e,
+                    v2_alt="".join(rng.choice("ACGT") for _ in range(rng.randint(0, 3))), q=rng.randint(0, 30))
+
+    def observe(self, r):
+        from .c02_single import obs_loc
+        from pyvc.check import default_observe as o
+        return [obs_loc(r[1])[:3], [o(x) for x in _items(r[3])]]
+
+
 class TranscriptIncorporate(Case):
     props = ("C13",)
     summaries = (HOS,)  # callee contract proved by c02_single.OverlapCore
@@ -318,7 +425,8 @@ def _placed_cds(i):
 
 CASES = [FeatureIncorporate(1), FeatureIncorporate(2), CdsIncorporate(1),
          CdsIncorporate(2, place="downstream of"), CdsIncorporate(2, place="upstream of", tier="thorough"),
-         CdsIncorporate(2, tier="thorough"), TranscriptIncorporate(1), TranscriptIncorporate(2, tier="thorough")]
+         CdsIncorporate(2, tier="thorough"), TranscriptIncorporate(1), TranscriptIncorporate(2, tier="thorough"),
+         CdsIncorporateCollection()]
 
 CANARIES = [
     dict(name="incorporate_variants: frames rebuilt from the first LISTED frame (F-C13-4)", props=("C13",),
